@@ -22,7 +22,7 @@ RULE = ("2-D / 3-D cubes over cat/cat_date/mr (+ text/binned/datetime), weighted
         "subtotal and difference insertions on categorical dimensions; besides random surveys (0-40 respondents, "
         "uneven missingness, restricted supports => empty margins) the generator forces degenerate tables: single "
         "row / single column, exactly proportional rows (rank 1), all-selected MR items (table base == row base), "
-        "2x2 CAT x CAT, rank-2 tables with an inserted rows / columns / intersection block whose z are all exactly 0 "
+        "2x2 CAT x CAT, large samples (the survey replicated K = 1e4 / 1e5 / 3e6 times, integer payload when unweighted), rank-2 tables with an inserted rows / columns / intersection block whose z are all exactly 0 "
         "(p must be 1); non-trivial = non-defective table with >= 2 distinct finite non-zero z; "
         "distinct = (kinds, insertion shapes, raw weighted counts)")
 ASSUMPTIONS = ["numpy.linalg.matrix_rank(counts) < 2  <=>  all 2x2 minors vanish, on the generated dyadic data "
@@ -108,6 +108,12 @@ def _zero_block_case(rng):
 
 
 def gen_case(rng):
+    case = _gen_case(rng)
+    case["scale"] = su.pick_scale(rng, 0.2)
+    return case
+
+
+def _gen_case(rng):
     mode = rng.choice(["random"] * 6 + ["single", "rank1", "allsel", "2x2", "2x2", "tiny", "zeroblock", "zeroblock"])
     if mode == "zeroblock":
         return _zero_block_case(rng)
@@ -164,7 +170,8 @@ def generate(ctx):
 
 
 def _wsurvey(case, survey):
-    return survey if case["weighted"] else [(Fraction(1), a) for _, a in survey]
+    ws = survey if case["weighted"] else [(Fraction(1), a) for _, a in survey]
+    return su.scaled_survey(ws, case.get("scale", 1))
 
 
 def _sides(case, vars_):
@@ -224,7 +231,9 @@ def evaluate(case, louts, ctx):
     findings = []
     ctx.count("kinds:" + su.kinds_key(vars_))
     ctx.count("mode:" + case.get("mode", "?"))
-    resp = gen.cube_response(vars_, survey, case["weighted"])
+    resp = su.scale_response(gen.cube_response(vars_, survey, case["weighted"]), case.get("scale", 1))
+    if case.get("scale", 1) > 1:
+        ctx.count("large_sample_cases:%s" % ("weighted" if case["weighted"] else "unweighted"))
     cube = Cube(resp, transforms=su.transforms_of(case["row_ins"], case["col_ins"]))
     nparts = su.n_partitions(vars_)
     parts = common.call_impl(lambda: len(cube.partitions))
@@ -345,7 +354,7 @@ def evaluate(case, louts, ctx):
 def describe(case):
     vars_, survey = su.load_case(case)
     return {"kinds": [v.kind for v in vars_], "mode": case.get("mode"), "missing_flags": [v.cat_missing for v in vars_],
-            "n_respondents": len(survey), "weighted": case["weighted"],
+            "n_respondents": len(survey), "weighted": case["weighted"], "scale": case.get("scale", 1),
             "row_ins": case["row_ins"], "col_ins": case["col_ins"], "first_respondents": case["survey"][:3]}
 
 
@@ -358,6 +367,9 @@ def shrink_candidates(case):
             yield dict(case, **{key: ins[:i] + ins[i + 1:]})
     if case["weighted"]:
         yield dict(case, survey=[["1", a] for _, a in case["survey"]])
+    if case.get("scale", 1) > 1:
+        yield dict(case, scale=1)
+        yield dict(case, scale=su.SCALES[0])
 
 
 THEOREMS = [
